@@ -42,6 +42,11 @@ func (l *baseListener) Close() error {
 }
 func (l *baseListener) Addr() net.Addr { return &net.TCPAddr{IP: net.IP{10, 0, 0, 1}, Port: 443} }
 
+// never decides "no" without reading a byte (like remote_ip / local_ip matchers).
+type never struct{}
+
+func (never) Match(cx *layer4.Connection) (bool, error) { return false, nil }
+
 type term struct{ ran *int }
 
 func (t term) Handle(cx *layer4.Connection, _ layer4.Handler) error {
@@ -67,6 +72,11 @@ func VH_listener() {
 	m := &env.At{N: vapi.Int("N", 0, 2), K: vapi.Uint8("K"), V0: vapi.Bool("V0")}
 	handled := 0
 	rl := layer4.RouteList{layer4.VerifNewRoute([]layer4.MatcherSet{{m}}, []layer4.NextHandler{term{&handled}})}
+	noRead := vapi.Param("NOREAD", 0) == 1
+	if noRead {
+		// every route is decided without reading: the connections fall through untouched
+		rl = layer4.RouteList{layer4.VerifNewRoute([]layer4.MatcherSet{{never{}}}, []layer4.NextHandler{term{&handled}})}
+	}
 	lw := layer4.VerifNewListenerWrapper(rl, 3*time.Second)
 	base := &baseListener{conns: conns, closed: make(chan struct{})}
 	li := lw.WrapListener(base)
@@ -74,10 +84,10 @@ func VH_listener() {
 
 	// which connections must come out of Accept? those whose stream ended before the
 	// matcher could decide are dropped (fail closed), those that matched are consumed.
+	falls := func(i int) bool { return noRead || m.Ref(streams[i], 0, len(streams[i])) == 1 }
 	expect := 0
 	for i := 0; i < k; i++ {
-		v := m.Ref(streams[i], 0, len(streams[i]))
-		if v == 1 {
+		if falls(i) {
 			expect++
 		}
 	}
@@ -94,8 +104,9 @@ func VH_listener() {
 		vapi.Assert(idx >= 0, "Accept returned an unknown connection")
 		vapi.Assert(!delivered[idx], "a connection was delivered twice")
 		delivered[idx] = true
-		vapi.Assert(m.Ref(streams[idx], 0, len(streams[idx])) == 1, "a connection consumed or rejected by layer4 was delivered")
+		vapi.Assert(falls(idx), "a connection consumed or rejected by layer4 was delivered")
 		vapi.Assert(conns[idx].Closed == 0, "a delivered connection was closed by layer4")
+		vapi.Assert(!conns[idx].DeadlineArmed, "a delivered connection still carries the matching deadline")
 		// it reads the client's stream from the first byte (nothing was consumed)
 		got := make([]byte, 0, 16)
 		p := make([]byte, 8)
